@@ -43,6 +43,10 @@ for rn in ('MaterialBiconditionalDesignated', 'MaterialBiconditionalNegatedUndes
              'satisfied ((~A v B) and (~B v A) both hold through B / ~B) but neither branch is. FDE proves A<>B |- (~A&~B)v(A&B), '
              'which the library\'s own model A=N,B=B refutes. Not repairable: test_*::test_branching_groups_auto and '
              'test_known_branchable_values pin the two-branch shape for every logic inheriting the rule.'))
+for fam, pat, rules in (('Bochvar', '*B3E', 'Biconditional*'), ('FDE', '*FDE', '*Biconditional*')):
+    F.append(dict(property='C01', key=f'C01:unsound-rule:{pat}:{rules}', status='known',
+        what=f'{fam} family: closed tableaux that use the inexact biconditional rules (see the C04 findings) can be refuted by a countermodel, '
+             'e.g. B3E |- A<->B, KB3E ~(A<->B), A |- ~B, FDE A<>B |- (~A&~B)v(A&B)'))
 # (d) FDE family: conjunction / disjunction along the chain F<N<B<T
 ROWS = [('Conjunction', 'NB'), ('Conjunction', 'BN'), ('Disjunction', 'NB'), ('Disjunction', 'BN'),
         ('MaterialConditional', 'NB'), ('MaterialConditional', 'BN'), ('MaterialBiconditional', 'NB'), ('MaterialBiconditional', 'BN'),
